@@ -286,7 +286,24 @@ def enc_live(x: Any) -> list:
 
 def dep_parts(d: HTMLDependency, lib_prefix, include_version) -> tuple[list, list, list, list]:
     """the four argument groups of as_html_tags, from the public as_dict() (its URLs are C12's
-    subject) and the head payload"""
+    subject) and the head payload.  Computed once per dependency object and setting (the first
+    time: before the implementation has rendered anything) and only read afterwards."""
+    cache = PARTS.setdefault(id(d), (d, {}))
+    if cache[0] is not d:          # the id of a dead object re-used
+        cache = PARTS[id(d)] = (d, {})
+    key = (lib_prefix, include_version)
+    if key not in cache[1]:
+        if len(PARTS) > 4000:
+            PARTS.clear()
+            cache = PARTS[id(d)] = (d, {})
+        cache[1][key] = _dep_parts(d, lib_prefix, include_version)
+    return cache[1][key]
+
+
+PARTS: dict = {}
+
+
+def _dep_parts(d: HTMLDependency, lib_prefix, include_version) -> tuple[list, list, list, list]:
     dd = d.as_dict(lib_prefix=lib_prefix, include_version=include_version)
     metas = [Tag("meta", **m) for m in dd["meta"]]
     links = [Tag("link", **s) for s in dd["stylesheet"]]
@@ -885,7 +902,7 @@ def check_cases(ctx: Ctx, name: str, cases: list[dict], built: list, model: list
             names = [objs[i].name + "[" + str(objs[i].version) + "]" for i in ids if 0 <= i < len(objs)]
             if lst is not None and lst != ([";".join(names)] if names else []):
                 ctx.violation(WHAT_LISTING, c, {**det, "expected": ";".join(names), "listing": lst})
-            if c["safe"]:
+            if c["safe"] and not tags_in_raw_text(c):
                 for what, d2 in parsed_oracle(c, objs, html_s, resolved, parts):
                     ctx.violation(what, c, {**det, **d2})
         # ---- B: correspondence ---------------------------------------------------------
@@ -1115,7 +1132,7 @@ def make_savable(rng, deps: list) -> None:
     (so that libdir really decides the URLs written into the document) or lose their local source"""
     for d in deps:
         if d["kind"] == "dep" and d["source"] == "pkg":
-            if rng.random() < 0.5:
+            if rng.random() < 0.3:
                 d["script"] = [dict(x, src=rng.choice(PKG_FILES["script"])) for x in d["script"]]
                 d["stylesheet"] = [dict(x, href=rng.choice(PKG_FILES["stylesheet"])) for x in d["stylesheet"]]
             else:
@@ -1186,8 +1203,8 @@ def check_routes(ctx: Ctx, cases: list[dict]) -> None:
     ctx.extra["routes_evaluated"] = ctx.extra.get("routes_evaluated", 0) + n_routes
 
 
-def check_head_content(ctx: Ctx, rng, n: int) -> None:
-    cases = []
+def check_head_content(ctx: Ctx, rng, n: int, extra: list | None = None) -> None:
+    cases = list(extra or [])
     for _ in range(n):
         safe = rng.random() < 0.5
         cases.append([rand_node(rng, 2, 0, safe, custom=False, deps_ok=False) for _ in range(rng.choice([0, 1, 1, 2, 3]))])
@@ -1304,6 +1321,19 @@ def rand_lookalike(rng, safe: bool) -> list:
         return ["G", "base", True, [["href", "S", "u"]], []]
     return [rng.choice("HHT"), rng.choice(['<meta charset="utf-8"/>', "<!DOCTYPE html>", "<head></head>", "</head><body>",
                                            '<script type="application/html-dependencies">x[1]</script>', "<html>", "</html>"])]
+
+
+def tags_in_raw_text(x: Any) -> bool:
+    """a tag (or wrapper holding one) sits inside a script / style / title / textarea element: its markup is
+    then TEXT of that element for a parser, and the 'markup-free' reading of the case does not apply"""
+    if isinstance(x, dict):
+        return any(tags_in_raw_text(v) for v in x.values())
+    if isinstance(x, list):
+        if len(x) == 5 and x[0] == "G" and x[1] in ("script", "style", "title", "textarea") and isinstance(x[4], list):
+            if any(k[0] not in "THRN" for k in x[4]):
+                return True
+        return any(tags_in_raw_text(v) for v in x)
+    return False
 
 
 def has_listing_lookalike(x: Any) -> bool:
@@ -1514,6 +1544,8 @@ def child_lists(nodes: list, acc: list) -> list:
     expansions of objects: those are fresh objects on every tagify())"""
     acc.append(nodes)
     for n in nodes:
+        if n[0] == "G" and n[1] in ("script", "style", "title", "textarea"):
+            continue      # raw-text elements: a tag put inside would make the 'markup-free' (safe) reading wrong
         if n[0] == "G":
             child_lists(n[4], acc)
         elif n[0] == "L":
@@ -1905,14 +1937,14 @@ def _run_streams(ctx: Ctx, rng) -> None:
     groups = [("fixed+corpus", FIXED + load_corpus()),
               ("random documents", [rand_case(rng) for _ in range(ctx.budget(1600, 45000))]),
               ("big documents (sizes around powers of two, depth, long strings)",
-               [dict(c, label=l) for _ in range(ctx.budget(1, 6)) for l, c in big_cases(rng)]),
+               [dict(c, label=l) for _ in range(ctx.budget(1, 4)) for l, c in big_cases(rng)]),
               ("dependency inside a dependency's head payload",
                [rand_case(rng, f7=True) for _ in range(ctx.budget(300, 5000))]),
               ("every small html child sequence", exhaustive_cases(ctx.budget(3, 4)))]
     histories = FIXED_HISTORIES + [rand_history(rng) for _ in range(ctx.budget(450, 8000))]
     check_groups(ctx, groups, histories)
 
-    check_routes(ctx, route_cases(rng, ctx.budget(120, 3000)))
+    check_routes(ctx, route_cases(rng, ctx.budget(100, 1200)))
 
     check_head_content(ctx, rng, ctx.budget(400, 5000))
 
@@ -1940,5 +1972,10 @@ def replay(ctx: Ctx, path: str) -> None:
         ctx.rule = "replay of one document case"
         ctx.proof()
         check_groups(ctx, [("replay", [c])])
+        check_routes(ctx, [c])
+    elif isinstance(c, dict) and "first" in c and "second" in c:
+        ctx.rule = "replay of two head_content() items"
+        ctx.proof()
+        check_head_content(ctx, ctx.rng, 0, extra=[c["first"], c["second"]])
     else:
         run(ctx)
